@@ -164,7 +164,7 @@ func confirmReal(s *prep.Scratch, v *bsim.Violation) (string, string) {
 	default:
 		return "n/a", ""
 	}
-	if v.Worlds[0].Version != "" || v.Worlds[0].Commit != "" {
+	if v.Worlds[0].Version != "" || v.Worlds[0].Commit != "" || v.Worlds[0].Date != "" || v.Worlds[0].Dirty != "" {
 		// the real binary carries its own build info; the simulated one is part of the world
 		return "n/a", "world sets build info"
 	}
